@@ -1,6 +1,6 @@
 (* Extract.v — extraction of the executable model to OCaml (ExtrOcamlBasic only). *)
 From Coq Require Extraction ExtrOcamlBasic.
-From RS Require Import Base Network NetSpec Tour TourSpec SchedObs Output Pipeline Transition TransSpec LocalSearch TourExactFacts OpSpec Flow LoadStmts Schedule Swaps PipelineSched Render Hyps Hyps2 TOpt TOptStmts2 SwapsRot F32 SlotDist RawLoad FlowGuard Decode Cal.
+From RS Require Import Base Network NetSpec Tour TourSpec SchedObs Output Pipeline Transition TransSpec LocalSearch TourExactFacts OpSpec Flow LoadStmts Schedule Swaps PipelineSched Render Hyps Hyps2 TOpt TOptStmts2 SwapsRot F32 SlotDist RawLoad FlowGuard Decode Cal OutputVV.
 Extraction Language OCaml.
 Extraction "model.ml" load nd can_reach successors predecessors service_nodes all_service_nodes
   capacity_of total_capacity_of get_start_depot_node get_end_depot_node
@@ -23,4 +23,4 @@ Extraction "model.ml" load nd can_reach successors predecessors service_nodes al
   spawned_total coverable_nodes neighbors candidates apply_cand from_tours tfn render inst_unsigned_b tours_ok_b params_costs_nonneg_b tours_typed_b tours_within_limits_b fleet_fits_overflow_b
   topt_neighbors topt_run cyc_tsp step_codes stop_codes tr_eqb topt_obj members_of dh_dists_nonneg_b first_min neighbors_from
   distribute f_of_u64 f_add f_div f_cmp f_bits f_of_bits f_ge f_one resolve cost_guard slots_of decode order_ok_b maintenance_considered
-  parse_datetime as_iso tp_add tp_sub tp_diff_dt tp_cmp tp_leb tp_lin rel_seconds strict_clock.
+  parse_datetime as_iso tp_add tp_sub tp_diff_dt tp_cmp tp_leb tp_lin rel_seconds strict_clock check_C04_vv eval_unserved_vv.
